@@ -902,7 +902,7 @@ fn history(family: &str, seed: u64, idx: usize, thorough: bool, out: &mut impl W
                     c.s.step(w);
                 }
                 // bounded wait (a frame's worth of a thousand messages can overrun the socket buffer: renet resends in real time)
-                for _ in 0..250 {
+                for _ in 0..120 {
                     c.lockstep(1);
                     let mut all = true;
                     for h in hs.iter().rev().take(100).chain(hs.iter().take(100)) {
@@ -917,7 +917,7 @@ fn history(family: &str, seed: u64, idx: usize, thorough: bool, out: &mut impl W
                     if all || c.s.panicked.is_some() {
                         break;
                     }
-                    std::thread::sleep(std::time::Duration::from_millis(8));
+                    std::thread::sleep(std::time::Duration::from_millis(15));
                 }
                 let d = c.drain(80);
                 c.s.trace.push(json!({"ev":"drain","quiescent":d.0,"rounds":d.1,"wide":true}));
